@@ -641,12 +641,31 @@ func xbuild(seed uint64) *xworld {
 	for _, n := range imported {
 		n := n
 		post := r.Chance(1, 2)
+		// early: a second, textually earlier return site that is never taken (guarded by a mutable global that stays
+		// 0) between the cross-module call and the end of the function
+		early := r.Chance(1, 2)
 		np := len(cat[n].params)
 		a.locals = append(a.locals, &xlocal{name: "a_w_" + n, params: cat[n].params, results: cat[n].results, export: true,
 			body: func(m *xmod) []byte {
 				c := getAll(code(), np).Call(m.ix("imp_" + n))
 				if post {
 					c.I32Const(1).Call(m.ix("a_post")).Drop()
+				}
+				if early {
+					c.GlobalGet(0).If(0x40)
+					for _, t := range cat[n].results {
+						switch t {
+						case wenc.I32:
+							c.I32Const(0)
+						case wenc.I64:
+							c.I64Const(0)
+						case wenc.F32:
+							c.F32(0)
+						default:
+							c.F64(0)
+						}
+					}
+					c.Return().End()
 				}
 				return c.End().B
 			},
@@ -703,6 +722,7 @@ func xbuild(seed uint64) *xworld {
 	}
 	var reexp []string
 	a.finish(w, r, r.Intn(9), func(m *xmod) {
+		m.w.Globals = append(m.w.Globals, wenc.Global{Type: wenc.GlobalType{Type: wenc.I32, Mutable: true}, Init: wenc.ConstI32(0)})
 		if hasTab {
 			m.w.Imports = append(m.w.Imports, wenc.Import{Module: "b", Name: "tab", Kind: wenc.ExtTable,
 				Table: wenc.TableType{Elem: wenc.FuncRef, Lim: wenc.Limits{Min: 8}}})
